@@ -179,6 +179,8 @@ var initPkgs = []string{
 	"bytes",
 	"sort",
 	"math",
+	"regexp/syntax",
+	"regexp",
 }
 
 type evidence struct {
